@@ -107,8 +107,9 @@ def env_of():
 ENV = env_of()
 
 
-def coq_env():
-    return "{| e_field_types := %s; e_check_types := %s; e_encodings := %s |}" % (L(ENV[0], S), L(ENV[1], S), L(ENV[2], S))
+def coq_env(extra=None):
+    more = [extra] if extra else []
+    return "{| e_field_types := %s; e_check_types := %s; e_encodings := %s |}" % (L(ENV[0] + more, S), L(ENV[1] + more, S), L(ENV[2], S))
 
 
 def summary(cid):
@@ -125,8 +126,10 @@ def summary(cid):
     for name in cid.check_names:
         c = cid.check_map[name]
         fields_used = getattr(c, "_field_names_to_check", None)
-        if fields_used is None:
+        if fields_used is None and hasattr(c, "_field_name_to_count"):
             fields_used = [getattr(c, "_field_name_to_count")]
+        if fields_used is None:
+            fields_used = []        # a plugin check: which fields its rule means is its own business
         cs.append({"desc": c.description, "type": type(c).__name__[:-len("Check")], "rule": c.rule, "fields": list(fields_used)})
     return {"format": df.format, "attrs": attrs, "fields": fs, "checks": cs}
 
@@ -159,6 +162,10 @@ def make_case(inp):
         kw = list(keyword.kwlist)
         return {"coq": P("KeywordCase", "(OKeywords %s)" % L(kw, S)), "obs": {"keywords": kw}, "nontrivial": False, "tags": ["keywords"]}
     rows = inp["rows"]
+    if inp.get("late"):
+        # field format and check classes that come into being only now, after many CIDs have been read in this process
+        import vcommon as _V
+        _V.late_classes(inp["late"])
     obs = observe(rows)
     frac = "accepted" in obs and any(x == "frac" for f in obs["accepted"]["fields"] for it in (f["length"] or []) for x in it)
     if "accepted" in obs:
@@ -172,7 +179,7 @@ def make_case(inp):
         tags.append("defect:" + inp["defect"])
     if inp.get("rewrite"):
         tags.append("rewrite:" + inp["rewrite"])
-    return {"coq": P("(CidCase %s %s)" % (coq_env(), L(rows, lambda r: L(r, S))), coq_obs), "obs": obs,
+    return {"coq": P("(CidCase %s %s)" % (coq_env(inp.get("late")), L(rows, lambda r: L(r, S))), coq_obs), "obs": obs,
             "nontrivial": inp["kind"] != "base", "tags": tags}
 
 
@@ -307,6 +314,10 @@ def rewrites(rnd, rows):
                     r[k] = rnd.choice(["", " ", "  "]) + r[k] + rnd.choice(["", " "])
         out.append(r)
     yield "blanks", out
+    # an example with white space around it that its field accepts as it stands is kept as it stands
+    f_rows = [i for i, r in enumerate(rows) if r[0] == "F"]
+    if rows[0][2].lower() != "fixed":
+        yield "padded-example-kept", rows[:f_rows[-1] + 1] + [["F", "padded_example", " ab ", "", "4", "Text"]] + rows[f_rows[-1] + 1:]
     d_rows = [r for r in rows[1:] if r[0] == "D"]
     rest = [r for r in rows[1:] if r[0] != "D"]
     if len(d_rows) > 1:
@@ -375,6 +386,13 @@ def defects(rnd, rows):
         bad_example = {"Integer": "x", "Decimal": "abc", "Choice": "nope", "Constant": "nope", "DateTime": "32.13.2000"}.get(ftype)
         if bad_example and not (ftype == "Integer" and False):
             yield "example-rejected", mod(i, 2, bad_example), i
+    # white space around an example is part of the example (it is significant in delimited, Excel and ODS data): a
+    # Text field of length 2 does not accept " ab "
+    last_f = f_idx[-1]
+    if fmt != "fixed":
+        yield "example-padded-too-long", rows[:last_f + 1] + [["F", "padded_example", " ab ", "", "2", "Text"]] + rows[last_f + 1:], last_f + 1
+        yield "example-only-blanks-for-integer", rows[:last_f + 1] + [["F", "padded_example", "  ", "", "", "Integer"]] + rows[last_f + 1:], last_f + 1
+        yield "example-padded-choice", rows[:last_f + 1] + [["F", "padded_example", " x", "", "", "Choice", "x, y"]] + rows[last_f + 1:], last_f + 1
     first_f = f_idx[0]
     yield "check-before-fields", rows[:first_f] + [["C", "early", "IsUnique", rows[first_f][1]]] + rows[first_f:], first_f
     names = [rows[i][1] for i in f_idx]
@@ -397,6 +415,14 @@ def gen_inputs(tier, rnd):
     for _ in range(n):
         rows = gen_valid(rnd)
         yield {"kind": "base", "rows": rows}
+        # the same CID with one more field and one more check of plugin types created at this moment: a known type is
+        # whatever class exists when the CID is read
+        late = "Late%d" % rnd.randrange(10 ** 9)
+        names = [r[1].strip() for r in rows if r and r[0].strip().lower() == "f"]
+        first_c = min([i for i, r in enumerate(rows) if r and r[0].strip().lower() == "c"] or [len(rows)])
+        fixed = any(len(r) > 2 and r[0].strip().lower() == "d" and r[2].strip().lower() == "fixed" for r in rows)
+        late_rows = rows[:first_c] + [["F", "late_field", "", "X", "3" if fixed else "", late, "a|b"]] + rows[first_c:] + [["C", "late check", late, "accept"]]
+        yield {"kind": "base", "rows": late_rows, "late": late}
         for name, rw in rewrites(rnd, rows):
             yield {"kind": "rewrite", "rewrite": name, "rows": rw, "base_rows": rows}
         for k, (name, bad, at) in enumerate(defects(rnd, rows)):
